@@ -144,26 +144,33 @@ def handle_exception_table():
 def run_outcome_table():
     """How a run ends for its caller, obtained by EXECUTING the real `run_suites` (under the run-level recorder) on a
     three-test project for every combination of: a reporting backend that raises (on an early event / on a late one /
-    never) x a keyboard interrupt while the caller waits for a completion (early / late / never).  Row input: the
-    facts of that run (interrupt delivered, backend raised, report successful); output: what the caller saw — the
-    returned verdict, or the class of the raised error and whether it carries the backend's original text."""
+    never) x the CLASS of what it raises (a user-defined Exception; StopIteration / StopAsyncIteration — Exceptions the
+    iteration protocols give a meaning to; GeneratorExit / SystemExit / KeyboardInterrupt — BaseExceptions `except
+    Exception` does not catch) x a keyboard interrupt while the caller waits for a completion (early / late / never).
+    Row input: the facts of that run (interrupt delivered, backend raised, report successful, class name); output: what
+    the caller saw — the returned verdict, or the class of the raised error and whether it carries the backend's
+    original text."""
     from run import observe as O
     from run import oracles as X
     from run.selftest import _p, _s, _t, _LOG
     project = _p([_s("s0", [_t("t0", [], [_LOG]), _t("t1", [], [_LOG], rank=2), _t("t2", [], [_LOG], rank=3)])])
     rows, seen = [], set()
-    for fault_k in (None, 1, 9):
+    classes = ["Custom", "StopIteration", "StopAsyncIteration"] + list(O.BASE_FAULT_CLASSES)
+    for fault_k, cls in [(None, "Custom")] + [(k, c) for c in classes for k in (1, 9)]:
         for interrupt in (None, ["get", 1], ["get", 3]):
-            fault = None if fault_k is None else {"k": fault_k, "cls": "Custom", "text": "T"}
+            if interrupt is not None and cls not in ("Custom", "StopIteration", "SystemExit"):
+                continue
+            fault = None if fault_k is None else {"k": fault_k, "cls": cls, "text": "T"}
             obs = O.run_project(project, strategy="off", interrupt_at=interrupt, backend_fault=fault)
             interrupted = any(r[0] == "interrupt" for r in obs["trace"])
             failed = any(r[0] == "backend-raise" for r in obs["trace"])
             rep = obs.get("report")
+            # (the verdict the caller gets is the report's: a report the writer stopped feeding is read as it stands)
             successful = bool(rep) and all(res["status"] in ("passed", "disabled") for _, res in X._all_results(rep))
             oc = obs["outcome"]
             if "returned" in oc:
                 out = "returned:%s" % str(oc["returned"]).lower()
-            elif oc.get("raised") == "KeyboardInterrupt":
+            elif oc.get("raised") == "KeyboardInterrupt" and "T" not in oc.get("text", ""):
                 out = "raised-KeyboardInterrupt"
             elif "raised" in oc and "T" in oc.get("text", ""):
                 out = "raised-backend-error:T"
@@ -171,11 +178,13 @@ def run_outcome_table():
                 out = "raised-other:" + oc["raised"]
             else:
                 out = "hang"
-            key = (interrupted, failed, successful if not failed else False)
+            caught = cls not in O.BASE_FAULT_CLASSES
+            key = (interrupted, failed, successful if not (failed and caught) else False, cls if failed else "Custom")
             if (key, out) in seen:
                 continue
             seen.add((key, out))
-            lean_in = "(" + ", ".join("true" if b else "false" for b in key) + ")"
-            rows.append((lean_in, '"%s"' % out, {"interrupt_at": interrupt, "fault_at_event": fault_k, "interrupted": interrupted,
+            lean_in = "(" + ", ".join("true" if b else "false" for b in key[:3]) + ', "%s")' % key[3]
+            rows.append((lean_in, '"%s"' % out, {"interrupt_at": interrupt, "fault_at_event": fault_k, "fault_class": cls, "interrupted": interrupted,
                                                  "backend_raised": failed, "successful": key[2], "out": out}))
-    return C.Table("runOutcomeTable", "List ((Bool × Bool × Bool) × String)", rows)
+    return C.Table("runOutcomeTable", "List ((Bool × Bool × Bool × String) × String)", rows)
+
